@@ -1,0 +1,40 @@
+//go:build verif
+
+package client
+
+import (
+	"time"
+
+	"github.com/pingcap/kvproto/pkg/tikvpb"
+	"google.golang.org/grpc"
+)
+
+// Hooks of the deterministic simulation harness (build tag "verif"). A
+// simulator installs the three variables to run the batch client over a
+// simulated BatchCommands stream without touching the network. While they are
+// nil the package behaves exactly as in a normal build.
+
+// VerifDial replaces grpc.DialContext in connPool.monitoredDial. It must return
+// a connection that never connects by itself (grpc.NewClient is lazy).
+var VerifDial func(target string, opts ...grpc.DialOption) (*grpc.ClientConn, error)
+
+// VerifWaitConnReady replaces the connectivity wait of
+// batchCommandsClient.waitConnReady. It must not block: it is also called with
+// the send lock of the batch client held.
+var VerifWaitConnReady func(conn *grpc.ClientConn, timeout time.Duration) error
+
+// VerifNewBatchStream replaces tikvpb.NewTikvClient(conn).BatchCommands(ctx) in
+// batchCommandsStream.recreate.
+var VerifNewBatchStream func(conn *grpc.ClientConn, forwardedHost, connIdx string) (tikvpb.Tikv_BatchCommandsClient, error)
+
+func verifDialHook() func(target string, opts ...grpc.DialOption) (*grpc.ClientConn, error) {
+	return VerifDial
+}
+
+func verifWaitConnReadyHook() func(conn *grpc.ClientConn, timeout time.Duration) error {
+	return VerifWaitConnReady
+}
+
+func verifNewBatchStreamHook() func(conn *grpc.ClientConn, forwardedHost, connIdx string) (tikvpb.Tikv_BatchCommandsClient, error) {
+	return VerifNewBatchStream
+}
